@@ -338,7 +338,7 @@ func TestVerifC08TypeRoundTrip(t *testing.T) {
 	t.Cleanup(kit.Flush)
 	types := c08CollectTypes()
 	if len(types) < 25 {
-		t.Fatalf("harness: only %d configuration types collected: %v", len(types), types)
+		t.Fatalf("VERIF-INCONCLUSIVE: harness: only %d configuration types collected: %v", len(types), types)
 	}
 	names := make([]string, len(types))
 	for i, rt := range types {
@@ -629,7 +629,7 @@ func TestVerifC08EnumTexts(t *testing.T) {
 	check := func(rt reflect.Type, vals []reflect.Value) {
 		words := documented[rt.String()]
 		if words == nil {
-			t.Fatalf("harness: no documented words for %v", rt)
+			t.Fatalf("VERIF-INCONCLUSIVE: harness: no documented words for %v", rt)
 		}
 		seen := map[string]bool{}
 		for _, v := range vals {
